@@ -69,6 +69,10 @@ class Check:
     def case(self, key, nontrivial=True):
         """Count one evaluated case against the implementation; key identifies distinctness."""
         self.cov["evaluations"] += 1
+        if self.cov["evaluations"] % 150 == 0 and "jax" in sys.modules:
+            # long runs compile thousands of executables in one process; XLA then fails to map memory for the next one
+            # ("LLVM ERROR: Unable to allocate section memory", or a crash inside the compiler): drop finished ones
+            sys.modules["jax"].clear_caches()
         if nontrivial and key is not None:
             self._distinct.add(key if isinstance(key, (str, int, tuple)) else json.dumps(key, sort_keys=True, default=str))
 
